@@ -1,4 +1,5 @@
-(* Judge of the L0 tie: the whole-formatter model Fmt0.format0 (extracted) against the binary, byte for byte.
+(* Judge of the L0 tie: the whole-formatter model Fmt0.format0 (extracted) against the binary, byte for byte; and the source
+   text against the tree (erasure and comment census), so that the theorems about the tree speak about the text that was formatted.
    L0 <id> <windows> <spaces> <indent width> <quote style> <tree> <source hex> <status> <output hex> *)
 open Util
 open Fmt0
@@ -50,6 +51,15 @@ let handle line = match words line with
       match (try Some (blk (Sexp.parse tree)) with Failure _ -> None) with
       | None -> report "unreadable-tree" id
       | Some p ->
+        (* the premises that connect the theorems about the tree to the source TEXT: the source lexes (Coq lexer) to tokens with
+           the erasure and the comment census of the tree's own print-out *)
+        let v51 = { Lex.v52 = false; v53 = false; v54 = false; vluau = false; vjit = false } in
+        (match Lex.lex v51 (unhex src) with
+         | None -> report "source-does-not-lex" id
+         | Some ts ->
+           let printed = pprog cfg p in
+           if Census.erase Census.D51 ts <> Census.erase Census.D51 printed then report "source-erasure-differs-from-the-tree" id
+           else if not (Census.census_eq (Census.census ts) (Census.census printed)) then report "source-comments-differ-from-the-tree" id);
         let model = format0 cfg p and o = unhex out in
         bytes := !bytes + L.length o;
         if o <> unhex src then incr changed;
